@@ -498,7 +498,7 @@ func checkPDF(data []byte, m *docModel, r *fw.R) (*findings, [20]byte) {
 				trm := pdfread.Mat{sh.Size * sh.Th, 0, 0, sh.Size, 0, sh.Rise}.Mul(sh.Tm).Mul(sh.CTM)
 				ex, ey := rot(sp.rotation, sp.size, 0)
 				ex, ey = applyLin(dr.m, ex, ey)
-				fx, fy := rot(sp.rotation, 0, sp.size)
+				fx, fy := rot(sp.rotation, sp.italic*sp.size, sp.size)
 				fx, fy = applyLin(dr.m, fx, fy)
 				scale := math.Hypot(dr.m[0], dr.m[1])
 				errLin := math.Max(math.Max(math.Abs(trm[0]/ptPerMm-ex), math.Abs(trm[1]/ptPerMm-ey)), math.Max(math.Abs(trm[2]/ptPerMm-fx), math.Abs(trm[3]/ptPerMm-fy)))
